@@ -228,7 +228,19 @@ func evalLeaf(impl string, lf fLeaf) (res bool, ret string) {
 		field, rval, cval := leafValues(lf)
 		r := resourceFor(impl, lf.Kind, lf.Null, field, rval)
 		f := &jsonapi.Filter{Field: field, Op: realOp(lf), Val: cval}
+		if ids, ok := cval.([]string); ok {
+			// a filter object is a value: it was applied with another list before, then given this one
+			f.Val = append([]string{"~other"}, ids...)[:1]
+			_ = f.IsAllowed(r)
+			f.Val = cval
+		}
 		res = f.IsAllowed(r)
+		// ... and a verdict does not wear off: the same object on the same resource again
+		for i := 0; i < 2; i++ {
+			if f.IsAllowed(r) != res {
+				ret = "verdict-changes-when-asked-again"
+			}
+		}
 		if lf.Null && !lf.RV.Nil && reflect.DeepEqual(lf.RV, lf.CV) {
 			// the same comparison with the very pointer the resource holds (a value read from it
 			// earlier): where a value lives does not change the verdict
@@ -287,6 +299,18 @@ func runFilterCase(c fCase) fEvent {
 		f, tree := build(c.Shape)
 		ev.Tree = tree
 		ev.Res = f.IsAllowed(r)
+		// the tree is the caller's: asked again (as Range does for the next resource), it says the same, and
+		// every leaf still says on its own what it said before
+		for i := 0; i < 2; i++ {
+			if f.IsAllowed(r) != ev.Res {
+				ev.Ret = "verdict-changes-when-asked-again"
+			}
+		}
+		for i, lfF := range filters {
+			if lfF.IsAllowed(r) != verdicts[i] {
+				ev.Ret = "a-leaf-changed-after-its-group-was-evaluated"
+			}
+		}
 	})
 	if p {
 		ev.Ret = "panic"
